@@ -139,6 +139,47 @@ type server struct {
 	state lsp.State
 }
 
+var syncKindOnce struct {
+	done bool
+	kind int
+}
+
+// serverSyncKind asks a fresh server what its initialize answer announces for
+// textDocumentSync.change (1 full, 2 incremental); a client follows that.
+func serverSyncKind() int {
+	if syncKindOnce.done {
+		return syncKindOnce.kind
+	}
+	syncKindOnce.done = true
+	defer func() { recover() }()
+	active := capOut != nil
+	if !active {
+		setupCapture()
+	}
+	rep := newServer().handle(mkReq(Msg{Kind: "init"}, 1))
+	if !active {
+		teardownCapture()
+	}
+	b, _ := json.Marshal(rep.result)
+	var r struct {
+		Capabilities struct {
+			TextDocumentSync json.RawMessage `json:"textDocumentSync"`
+		} `json:"capabilities"`
+	}
+	json.Unmarshal(b, &r)
+	var n int
+	if json.Unmarshal(r.Capabilities.TextDocumentSync, &n) == nil {
+		syncKindOnce.kind = n
+		return n
+	}
+	var o struct {
+		Change int `json:"change"`
+	}
+	json.Unmarshal(r.Capabilities.TextDocumentSync, &o)
+	syncKindOnce.kind = o.Change
+	return o.Change
+}
+
 func newServer() *server { return &server{state: lsp.InitialState()} }
 
 type reply struct {
